@@ -8,29 +8,44 @@ Import ListNotations.
 (* result_ok script i rq res (proofs/Wire_proofs.v): every run of bytes delivered for request i carries tag i - the tag
    the server gives to the bytes it writes in reply to request i, strays carry 100+i - and what was delivered is either
    nothing or at most as many bytes as one reply of the script, answering a request of that kind, sent (k_sent <= k_n).
-   all_ok: that holds for every request of the history. *)
-Theorem bytes_belong_to_request : forall rc fuel M script reqs,
-  all_ok script 0 reqs (run_history rc fuel M (init M script) 0 reqs).
-Proof. intros. exact (history_own rc fuel M reqs (init M script) 0). Qed.
+   all_ok: that holds for every request of the history.
+   The server may hold the rest of a body back until the next request arrives on that connection (SLate): with
+   release_conn() closing what was not read to its end (rc = true, the source as it is: source_facts below) the
+   statement holds all the same. *)
+Theorem bytes_belong_to_request : forall fuel M script reqs,
+  all_ok script 0 reqs (run_history true fuel M (init M script) 0 reqs).
+Proof. intros. exact (history_own fuel M reqs (init M script) 0 (init_no_hold M script)). Qed.
 Print Assumptions bytes_belong_to_request.
 
-(* the same from any pool state whatever (any idle connections, any bytes pending on them) *)
-Theorem bytes_belong_from_any_state : forall rc fuel M st i reqs,
-  all_ok (s_script st) i reqs (run_history rc fuel M st i reqs).
-Proof. intros. exact (history_own rc fuel M reqs st i). Qed.
+(* the same from any pool state whatever (any idle connections, any bytes pending on them) in which no server is
+   holding anything back *)
+Theorem bytes_belong_from_any_state : forall fuel M st i reqs, no_hold st ->
+  all_ok (s_script st) i reqs (run_history true fuel M st i reqs).
+Proof. intros. exact (history_own fuel M reqs st i H). Qed.
 Print Assumptions bytes_belong_from_any_state.
+
+(* with release_conn() as it was before fix f695319 (rc = false) the statement is false: a response released unread whose
+   rest arrives with the next request hands that rest - bytes written for request 0 - to request 1 *)
+Theorem bytes_belong_without_the_fix_refuted : exists M script reqs,
+  ~ all_ok script 0 reqs (run_history false 3 M (init M script) 0 reqs).
+Proof.
+  exists 1, [mkReply 0 200 FLen 57 1 1 true SLate false; mkReply 0 200 FLen 4 4 4 true SNone false],
+    [mkReq false false CRelease; mkReq false false CReadAll].
+  vm_compute. intros [_ [[H _] _]]. inversion H as [|? ? Hx _]. discriminate Hx.
+Qed.
+Print Assumptions bytes_belong_without_the_fix_refuted.
 
 (* a pooled connection with bytes or EOF pending at checkout is closed, not used *)
 Theorem pending_connection_discarded : forall st s d q x xs,
-  s_q st = Some (s, d) :: q -> evs_of (s_evs st) s = x :: xs ->
+  s_q st = Some (s, d) :: q -> evs_of (s_evs st) s = x :: xs -> x <> IHold ->
   exists st1, checkout st = (st1, None) /\ evs_of (s_evs st1) s = [] /\ s_q st1 = q.
 Proof. exact pending_is_discarded. Qed.
 Print Assumptions pending_connection_discarded.
 
 (* the socket an attempt writes its request to has nothing pending *)
-Theorem attempt_socket_clean : forall st st2 s d,
+Theorem attempt_socket_clean : forall st st2 s d, no_hold st ->
   acquire st = (st2, s, d) -> evs_of (s_evs st2) s = [].
-Proof. intros st st2 s d H. exact (proj1 (acquire_clean st st2 s d H)). Qed.
+Proof. intros st st2 s d Hn H. exact (proj1 (acquire_clean st st2 s d Hn H)). Qed.
 Print Assumptions attempt_socket_clean.
 
 (* a connection whose previous response was left unread (and is still alive) never yields a response:
